@@ -163,6 +163,34 @@ def _(c):
     c.ensures("aborting", "self.state == TransactionState.ABORTING_TRANSACTION")
     c.ensures("waiter-re-armed", "not self._transaction_waiter.done()")
     c.ensures("sender-woken", "implies(self._task_waiter is not None, self._task_waiter.done())")
+    c.replay_fn = lambda model, ob=None: {"script": _ABORTING_SCRIPT}
+
+
+# replay: a real manager aborts from each state it may abort from; abort_transaction() then waits on the transaction waiter
+_ABORTING_SCRIPT = '''
+import asyncio, logging
+logging.disable(logging.CRITICAL)
+from aiokafka.producer.transaction_manager import TransactionManager, TransactionState
+async def main():
+    bad = []
+    for failed_first in (False, True):
+        tm = TransactionManager("tid", 1000)
+        tm.set_pid_and_epoch(1, 0)
+        tm.begin_transaction()
+        if failed_first:
+            tm.error_transaction(RuntimeError("abortable"))
+            tm._transaction_waiter.exception()
+        tm.aborting_transaction()
+        w = tm._transaction_waiter
+        if tm.state != TransactionState.ABORTING_TRANSACTION or w is None or w.done():
+            bad.append("abort %s: state %s, the future abort_transaction() waits for is %s"
+                       % ("after an abortable error" if failed_first else "of a healthy transaction", tm.state.name,
+                          "missing" if w is None else ("already done (the stored error is raised instead of waiting for EndTxn)" if w.done() else "pending")))
+    return bad
+bad = asyncio.run(main())
+VIOLATED = bool(bad)
+DETAIL = "%r" % (bad[:2],) if bad else "ok"
+'''
 
 
 @contract(MOD + ":TransactionManager.notify_task_waiter", ["C16", "C07"])
@@ -214,7 +242,7 @@ def _(c):
     c.ensures("def", "result == (is_empty(self._txn_partitions) and is_empty(self._txn_consumer_groups))")
 
 
-@contract(MOD + ":TransactionManager.complete_transaction", ["C16", "C07"])
+@contract(MOD + ":TransactionManager.complete_transaction", ["C16", "C07", "C01"])
 def _(c):
     c.self_("TransactionManager")
     inv(c)
@@ -232,6 +260,8 @@ def _(c):
              ensures=[("no-effect", "unchanged(self)"), ("futures-untouched", "same_heap('Future')")], exact=True)
     c.ensures("ready", "self.state == TransactionState.READY")
     c.ensures("scope-cleared", "is_empty(self._txn_partitions) and is_empty(self._txn_consumer_groups)")
+    # C01 "sequence numbers ... continue": producer id and epoch outlive the transaction, so do the per-partition counters
+    c.ensures("the-sequence-counters-go-on-where-the-transaction-left-them", "self._sequence_numbers == old(self._sequence_numbers)")
     c.ensures("caller-released", "implies(self._transaction_waiter is not None, self._transaction_waiter.done())")
     c.replay_fn = lambda model, ob=None: {"script": _COMPLETE_SCRIPT}
 
@@ -255,6 +285,9 @@ async def main():
                 if tm.txn_partitions or not tm.is_empty_transaction():
                     bad.append("%s: the next transaction starts with %r / group %r registered" % (how, set(tm.txn_partitions), tm._txn_consumer_groups))
             tm.maybe_add_partition_to_txn(tp); tm.partition_added(tp)
+            if tm.sequence_number(tp) != 3 * (round_ - 1):
+                bad.append("%s: transaction %d starts partition %s at sequence %d, the producer's last batch ended at %d" % (how, round_, tp, tm.sequence_number(tp), 3 * (round_ - 1) - 1))
+            tm.increment_sequence_number(tp, 3)
             fut = tm.add_offsets_to_txn({tp: OffsetAndMetadata(5, "")}, "g")
             if tm.consumer_group_to_add() != "g":
                 bad.append("%s, transaction %d: the group is not registered with the coordinator again (AddOffsetsToTxn skipped)" % (how, round_))
